@@ -817,6 +817,23 @@ func (g *nnsGen) registeredNames() []string {
 	return out
 }
 
+// nnsSpellings: other spellings of a name that a caller might use for the
+// same domain (absolute form, stray dots, case, stray blank). The contract
+// takes names and token ids as raw bytes: only resolve strips one trailing dot.
+func nnsSpellings(name string) []string {
+	return []string{name + ".", name + "..", "." + name, strings.ToUpper(name), name + " ",
+		strings.ToUpper(name[:1]) + name[1:]}
+}
+
+// respell replaces, now and then, the name of an op by another spelling of it.
+func (g *nnsGen) respell(o nnsOp) nnsOp {
+	if o.Name != "" && g.r.Intn(11) == 0 {
+		v := nnsSpellings(o.Name)
+		o.Name = v[g.r.Intn(len(v))]
+	}
+	return o
+}
+
 // nextTime: small steps, jumps to the expiration boundaries exp-1, exp, exp+1
 // of a registered name, rarely a year.
 func (g *nnsGen) nextTime() uint64 {
@@ -1233,6 +1250,9 @@ func (g *nnsGen) next(step int) nnsOp {
 			adm = ownBad
 		}
 		ps := g.role(name)
+		if cur := g.book.get(name).admin; cur != ownNull && g.r.Intn(4) == 0 {
+			ps = []int{cur} // the current admin tries to appoint (only the owner may)
+		}
 		if g.r.Intn(5) != 0 {
 			ps = append(ps, adm)
 		}
@@ -1319,9 +1339,14 @@ func nnsReaders(prop string) []nnsOp {
 		}
 	default:
 		for _, n := range sub {
-			rs = append(rs, nnsOp{Kind: "getRecords", Name: n, Typ: tA}, nnsOp{Kind: "getRecords", Name: n, Typ: tTXT},
+			rs = append(rs, nnsOp{Kind: "getRecords", Name: n, Typ: tTXT},
 				nnsOp{Kind: "getRecords", Name: n, Typ: tCNAME}, nnsOp{Kind: "getAllRecords", Name: n},
-				nnsOp{Kind: "resolve", Name: n, Typ: tA}, nnsOp{Kind: "resolve", Name: n, Typ: tTXT}, nnsOp{Kind: "isAvailable", Name: n})
+				nnsOp{Kind: "resolve", Name: n, Typ: tTXT}, nnsOp{Kind: "isAvailable", Name: n})
+			// the A views (same code path as TXT; the A records themselves are in
+			// getAllRecords of every name) only for three names, to keep the quick tier short
+			if n == "a.com" || n == "x.a.com" || n == "b.com" {
+				rs = append(rs, nnsOp{Kind: "getRecords", Name: n, Typ: tA}, nnsOp{Kind: "resolve", Name: n, Typ: tA})
+			}
 		}
 		rs = append(rs, nnsOp{Kind: "resolve", Name: "a.com.", Typ: tTXT}, nnsOp{Kind: "resolve", Name: "a.com", Typ: tCNAME},
 			nnsOp{Kind: "getRecords", Name: "a.com", Typ: tSOA}, nnsOp{Kind: "getRecords", Name: "a.com", Typ: tAAAA})
@@ -1464,6 +1489,25 @@ func nnsCorpus1(prop string) [][]nnsOp {
 		rec("deleteRecords", "w.x.a.com", tTXT, 0, "", pU0)
 		reg("x.a.com", pU2, 3600, pU0, pU2) // takeover U1 -> U2
 		out = append(out, h)
+		// 5: other spellings of a registered name in every method that takes a name
+		// or a token id: none of them is the token (only resolve strips one dot);
+		// the accounting is judged after each call
+		start()
+		reg("a.com", pU0, 3600, pU0)
+		for _, v := range nnsSpellings("a.com") {
+			add(nnsOp{Kind: "transfer", Name: v, Owner: pU1}, pU0)
+			add(nnsOp{Kind: "ownerOf", Name: v})
+			add(nnsOp{Kind: "properties", Name: v})
+			add(nnsOp{Kind: "isAvailable", Name: v})
+			add(nnsOp{Kind: "renew", Name: v, Years: 1}, pU0)
+			add(nnsOp{Kind: "setAdmin", Name: v, Owner: pU1}, pU0, pU1)
+			reg(v, pU2, 3600, pU2)
+		}
+		add(nnsOp{Kind: "transfer", Name: "a.com", Owner: pU1}, pU0)
+		for _, v := range nnsSpellings("a.com") {
+			add(nnsOp{Kind: "transfer", Name: v, Owner: pC}, pU1)
+		}
+		out = append(out, h)
 		// 3: price, degenerate lifetimes and owners
 		h, t = nil, 0
 		add(nnsOp{Kind: "registerTLD", Name: "com", Email: "e@x.io", Refresh: 1, Retry: 2, Expire: 100 * Y, TTL: 4}, pCmt)
@@ -1495,13 +1539,16 @@ func nnsCorpus1(prop string) [][]nnsOp {
 		add(nnsOp{Kind: "setAdmin", Name: "a.com", Owner: pU1}, pU0, pU1)
 		rec("addRecord", "a.com", tTXT, 0, "t1", pU0)
 		matrix := func() {
-			for _, ps := range [][]int{{pU0}, {pU1}, {pU2}, {pCmt}, {}} {
+			// the signer sets that must NOT be able to transfer / appoint come first
+			// (while the state still has owner, admin and records), the owner last
+			for _, ps := range [][]int{{pU1}, {pU2}, {pCmt}, {}, {pU1, pU2}, {pU0}} {
 				rec("addRecord", "a.com", tTXT, 0, "t2", ps...)
 				rec("setRecord", "a.com", tTXT, 0, "t3", ps...)
 				rec("deleteRecords", "a.com", tA, 0, "", ps...)
 				add(nnsOp{Kind: "updateSOA", Name: "a.com", Email: "ops@nspcc.ru", Refresh: 5, Retry: 6, Expire: 7, TTL: 8}, ps...)
 				add(nnsOp{Kind: "renew", Name: "a.com", Years: 1}, ps...)
 				reg("x.a.com", pU2, 3600, append([]int{pU2}, ps...)...)
+				add(nnsOp{Kind: "setAdmin", Name: "a.com", Owner: pU2}, ps...)
 				add(nnsOp{Kind: "setAdmin", Name: "a.com", Owner: ownNull}, ps...)
 				add(nnsOp{Kind: "transfer", Name: "a.com", Owner: pU2}, ps...)
 				add(nnsOp{Kind: "setPrice", Price: 1}, ps...)
@@ -1521,7 +1568,40 @@ func nnsCorpus1(prop string) [][]nnsOp {
 		reg("a.com", pU2, 3600, pU2) // takeover
 		matrix()
 		out = append(out, h)
+		// other spellings of the name, signed by the owner: not the name
+		start()
+		reg("a.com", pU0, 3600, pU0)
+		rec("addRecord", "a.com", tTXT, 0, "t1", pU0)
+		for _, v := range nnsSpellings("a.com") {
+			rec("addRecord", v, tTXT, 0, "t2", pU0)
+			rec("setRecord", v, tTXT, 0, "t3", pU0)
+			rec("deleteRecords", v, tTXT, 0, "", pU0)
+			add(nnsOp{Kind: "updateSOA", Name: v, Email: "ops@nspcc.ru", Refresh: 5, Retry: 6, Expire: 7, TTL: 8}, pU0)
+			add(nnsOp{Kind: "renew", Name: v, Years: 1}, pU0)
+			add(nnsOp{Kind: "setAdmin", Name: v, Owner: pU1}, pU0, pU1)
+			add(nnsOp{Kind: "transfer", Name: v, Owner: pU1}, pU0)
+			reg("x."+v, pU2, 3600, pU0, pU2)
+		}
+		out = append(out, h)
 	default:
+		// 0: other spellings of the name in the record methods and readers
+		start()
+		reg("a.com", pU0, 3600, pU0)
+		rec("addRecord", "a.com", tTXT, 0, "t1", pU0)
+		rec("addRecord", "x.a.com", tTXT, 0, "t2", pU0)
+		for i, v := range append(nnsSpellings("a.com"), "x.a.com.", "x.a.com ") {
+			rec("addRecord", v, tTXT, 0, "t3", pU0)
+			rec("deleteRecords", v, tTXT, 0, "", pU0)
+			add(nnsOp{Kind: "getRecords", Name: v, Typ: tTXT})
+			add(nnsOp{Kind: "resolve", Name: v, Typ: tTXT})
+			if i < 2 || i >= 6 {
+				rec("setRecord", v, tTXT, 0, "t3", pU0)
+				add(nnsOp{Kind: "getAllRecords", Name: v})
+				add(nnsOp{Kind: "isAvailable", Name: v})
+			}
+		}
+		add(nnsOp{Kind: "updateSOA", Name: "a.com.", Email: "ops@nspcc.ru", Refresh: 5, Retry: 6, Expire: 7, TTL: 8}, pU0)
+		out = append(out, h)
 		// 1: F14 — setRecord creates a duplicate
 		start()
 		reg("a.com", pU0, 3600, pU0)
@@ -2217,6 +2297,9 @@ func runNNSFamily(t *testing.T, prop string) {
 			} else {
 				g.now = n.now
 				o = g.next(i)
+				if i > 5 {
+					o = g.respell(o)
+				}
 			}
 			o.Signers = n.canonSigners(o.Signers)
 			if o.Kind == "addRecord" || o.Kind == "setRecord" {
